@@ -640,8 +640,11 @@ def _static_hasattr(value: object, attr: str) -> bool:
 
 def get_attrs_attribute(typ: object, ctx: AttrContext) -> Optional[Value]:
     try:
-        if hasattr(typ, "__attrs_attrs__"):
-            for attr_attr in typ.__attrs_attrs__:
+        # attrs stores a tuple (subclass); an object that answers every attribute
+        # access may hand us something that can be iterated over forever
+        attrs_attrs = getattr(typ, "__attrs_attrs__", None)
+        if isinstance(attrs_attrs, tuple):
+            for attr_attr in attrs_attrs:
                 if attr_attr.name == ctx.attr:
                     if attr_attr.type is not None:
                         return type_from_runtime(
